@@ -395,7 +395,12 @@ Lemma adds_note s sid u t w seq :
   (match t with TMe _ => False | _ => True end) ->
   adds s (fst (note_op s sid u t w seq)) (fresh_ok (fst (note_op s sid u t w seq))).
 Proof.
-  intros Ht. unfold note_op. destruct (get_top s t) as [x|] eqn:G; [|apply adds_refl].
+  intros Ht. unfold note_op.
+  repeat match goal with
+         | |- adds _ (fst (if ?c then _ else _)) (fresh_ok (fst (if ?c then _ else _))) =>
+           destruct c eqn:?; [apply adds_refl|]
+         end.
+  destruct (get_top s t) as [x|] eqn:G; [|apply adds_refl].
   repeat match goal with
          | |- adds _ (fst (if ?c then _ else _)) (fresh_ok (fst (if ?c then _ else _))) =>
            destruct c eqn:?; [apply adds_refl|]
@@ -595,7 +600,7 @@ Proof.
              | |- Forall _ (s_zomb (fst (if ?x then _ else _))) => destruct x
              end; exact Z.
   - (* Note *)
-    destruct (sess_user s sid); [|split; [apply adds_refl|exact Z]].
+    match goal with |- adds _ (fst (if ?c then _ else _)) _ /\ _ => destruct c; [split; [apply adds_refl|exact Z]|] end.
     destruct r; [split; [apply adds_refl|exact Z]| |];
       (split; [apply adds_note; apply resolve_not_me; discriminate|]);
       unfold zomb_nc, note_op;
@@ -739,15 +744,15 @@ Proof.
 Qed.
 
 (* the {info} frames a topic makes from a {note}: attached sessions of current, non-deleted subscribers with R *)
-Lemma no_leak_note_reach s sid0 r w0 seq sid user top src w :
-  reach s -> In (Frame sid user top src w) (snd (step s (Note sid0 r w0 seq))) ->
+Lemma no_leak_note_reach s sid0 u0 r w0 seq sid user top src w :
+  reach s -> In (Frame sid user top src w) (snd (step s (Note sid0 u0 r w0 seq))) ->
   is_info w = true /\
-  exists x, get_top (fst (step s (Note sid0 r w0 seq))) top = Some x /\ In (sid, user) (t_sess x) /\
+  exists x, get_top (fst (step s (Note sid0 u0 r w0 seq))) top = Some x /\ In (sid, user) (t_sess x) /\
             cached x user = true /\ is_reader (p_mode (get_pud x user)) = true.
 Proof.
-  intros R Hin. pose proof (no_leak_all s (Note sid0 r w0 seq)) as A. rewrite Forall_forall in A.
+  intros R Hin. pose proof (no_leak_all s (Note sid0 u0 r w0 seq)) as A. rewrite Forall_forall in A.
   specialize (A _ Hin). unfold entitled_at, entitled_note in A. destruct A as [I A]. split; [exact I|].
-  pose proof (members_ok_reach _ (reach_step s (Note sid0 r w0 seq) R)) as M.
+  pose proof (members_ok_reach _ (reach_step s (Note sid0 u0 r w0 seq) R)) as M.
   destruct top; [destruct A| |]; destruct A as (x & G & Hs & Rd); exists x; repeat split; auto; exact (M _ _ _ _ G Hs).
 Qed.
 
@@ -758,7 +763,7 @@ Qed.
    the entry of user 1 stays in the topic, deleted, WITH its old want/given (P and R). *)
 Definition h_removed : list op :=
   [Att 3 1 RMe false; Att 4 2 RMe false; Att 1 1 (RP2P 2) false; D; D; D; D; Att 2 2 (RP2P 1) false;
-   Pub 2 (RP2P 1); D; D; Unsub 1 (RP2P 2); D; D; Note 2 (RP2P 1) WIKp 0; Note 2 (RP2P 1) WIRead 1; D; D; D].
+   Pub 2 (RP2P 1); D; D; Unsub 1 (RP2P 2); D; D; Note 2 2 (RP2P 1) WIKp 0; Note 2 2 (RP2P 1) WIRead 1; D; D; D].
 
 Lemma removed_gets_nothing :
   (forall sid top src w, In (Frame sid 1 top src w) (snd (run init h_removed)) -> sid = 3 ->
@@ -781,7 +786,7 @@ Qed.
    no_leak_content_me are satisfiable) *)
 Definition h_receipt : list op :=
   [Att 3 1 RMe false; Att 1 1 (RP2P 2) false; D; D; Att 2 2 (RP2P 1) false; Det 1 (RP2P 2);
-   Pub 2 (RP2P 1); D; Note 2 (RP2P 1) WIKp 0; D; D].
+   Pub 2 (RP2P 1); D; Note 2 2 (RP2P 1) WIKp 0; D; D].
 
 Lemma receipt_delivered : In (Frame 3 1 (TMe 1) (TMe 2) WIKp) (snd (run init h_receipt)).
 Proof. vm_compute. repeat (first [left; reflexivity | right]). Qed.
